@@ -118,6 +118,8 @@ pub fn compare(h: &History, r: &RealOut) -> Option<Result<(), String>> {
 }
 
 pub struct Sweep {
+    /// runs for which the real binary disagreed with itself (a C19 violation, not a simulator bug)
+    pub not_reproducible: Vec<(u64, String)>,
     pub sessions: u64,
     pub compared: u64,
     pub not_comparable: u64,
@@ -128,7 +130,7 @@ pub struct Sweep {
 pub fn sweep(prop: &str, seed: u64, n: u64, stride: u64, threads: usize, dir: &str) -> Sweep {
     let bin = match real_bin() {
         Some(b) => b,
-        None => return Sweep { sessions: 0, compared: 0, not_comparable: 0, mismatches: vec![] },
+        None => return Sweep { not_reproducible: vec![], sessions: 0, compared: 0, not_comparable: 0, mismatches: vec![] },
     };
     let mut handles = Vec::new();
     for t in 0..threads {
@@ -138,7 +140,7 @@ pub fn sweep(prop: &str, seed: u64, n: u64, stride: u64, threads: usize, dir: &s
         let h = std::thread::Builder::new()
             .stack_size(64 << 20)
             .spawn(move || {
-                let mut s = Sweep { sessions: 0, compared: 0, not_comparable: 0, mismatches: vec![] };
+                let mut s = Sweep { not_reproducible: vec![], sessions: 0, compared: 0, not_comparable: 0, mismatches: vec![] };
                 let mut k = t as u64;
                 while k < n {
                     let run = k * stride.max(1);
@@ -163,7 +165,23 @@ pub fn sweep(prop: &str, seed: u64, n: u64, stride: u64, threads: usize, dir: &s
                     match compare(&hist, &r) {
                         None => s.not_comparable += 1,
                         Some(Ok(())) => s.compared += 1,
-                        Some(Err(e)) => s.mismatches.push(format!("{} run {}: {}", prop, run, e)),
+                        Some(Err(e)) => {
+                            // is the real binary even consistent with itself?
+                            let mut outs = vec![(r.stdout.clone(), r.code)];
+                            for k in 0..4 {
+                                if let Some(r2) = real_run(&case.scn, &bin, &dir, &format!("f{}-{}-{}", t, run, k), Duration::from_secs(20)) {
+                                    outs.push((r2.stdout, r2.code));
+                                }
+                            }
+                            if outs.iter().any(|o| *o != outs[0]) {
+                                s.not_reproducible.push((run, format!(
+                                    "the real binary, given the same file and the same input {} times, printed different things: not reproducible",
+                                    outs.len()
+                                )));
+                            } else {
+                                s.mismatches.push(format!("{} run {}: {}", prop, run, e));
+                            }
+                        }
                     }
                 }
                 s
@@ -171,13 +189,14 @@ pub fn sweep(prop: &str, seed: u64, n: u64, stride: u64, threads: usize, dir: &s
             .unwrap();
         handles.push(h);
     }
-    let mut total = Sweep { sessions: 0, compared: 0, not_comparable: 0, mismatches: vec![] };
+    let mut total = Sweep { not_reproducible: vec![], sessions: 0, compared: 0, not_comparable: 0, mismatches: vec![] };
     for h in handles {
         if let Ok(s) = h.join() {
             total.sessions += s.sessions;
             total.compared += s.compared;
             total.not_comparable += s.not_comparable;
             total.mismatches.extend(s.mismatches);
+            total.not_reproducible.extend(s.not_reproducible);
         }
     }
     total
